@@ -54,11 +54,13 @@ fn emit_idx(c: &Case, d: Vector3<f64>, gen: &str, group: u64, rel: &str) {
   let dir = Unit::new_unchecked(d);
   let ind = *setup.crystal.get_indices(c.w * M, setup.temperature);
   let s = setup.to_crystal_frame(dir);
+  // the reciprocal squares exactly as index_along forms them (same expression, same compiler)
+  let a = ind.map(|i| i.powi(-2));
   let no = guarded(|| *setup.index_along(c.w * M, dir, PolarizationType::Ordinary));
   let ne = guarded(|| *setup.index_along(c.w * M, dir, PolarizationType::Extraordinary));
   emit(json!({
     "kind": "idx", "id": c.id, "w": fx(c.w), "tc": fx(c.t_c), "ct": fx(c.ct), "cp": fx(c.cp),
-    "n": [fx(ind.x), fx(ind.y), fx(ind.z)], "d": v3(&d), "s": v3(&s.into_inner()),
+    "n": [fx(ind.x), fx(ind.y), fx(ind.z)], "a": v3(&a), "d": v3(&d), "s": v3(&s.into_inner()),
     "no": no.as_ref().map(|x| fx(*x)).unwrap_or(Value::Null), "ne": ne.as_ref().map(|x| fx(*x)).unwrap_or(Value::Null),
     "panic": no.as_ref().err().or(ne.as_ref().err()).cloned(),
     "gen": gen, "group": group, "rel": rel,
